@@ -42,6 +42,8 @@ func transformSamplerMap(m map[string]any) map[string]any {
 				v = config.Duration(vi) * config.Duration(time.Second)
 			case int64:
 				v = config.Duration(vi) * config.Duration(time.Second)
+			case float64: // JSON input
+				v = config.Duration(vi * float64(time.Second))
 			}
 		case "adjustmentinterval":
 			if _, ok := v.(config.Duration); !ok {
@@ -50,6 +52,8 @@ func transformSamplerMap(m map[string]any) map[string]any {
 					v = config.Duration(vi) * config.Duration(time.Second)
 				case int64:
 					v = config.Duration(vi) * config.Duration(time.Second)
+				case float64: // JSON input
+					v = config.Duration(vi * float64(time.Second))
 				}
 			}
 		}
